@@ -180,6 +180,38 @@ CHECKS["C01"] = {
     "assumptions": ["toolchain go1.26.8 (newer than the repository's 1.23.5) is used to get testing/synctest"],
 }
 
+CHECKS["C18"] = {
+    "title": "failure reports are well-formed, name the right recipients, cannot loop",
+    "go": GO126,
+    "units": [
+        {"name": "queue", "pkg": "internal/target/queue", "run": "^TestVerifC18",
+         "overlay": dict(QUEUE_COMMON, **{"verif_c01_test.go": "harness/C01/queue_test.go", "verif_c18_test.go": "harness/C18/dsn_test.go"}), "overlay_abs": VERIFX},
+    ],
+    "quick": {"n": 4000, "shards": 16},
+    "thorough": {"n": 160000, "shards": 16},
+    "level_text": "randomised search (rapid) over failed-recipient sets, rewriting, IDN/EAI, error values and original headers, run through the real queue under synctest; "
+                  "every generated report is parsed with Go's standard library (independent of go-message) and compared with the C01 reference model.",
+    "level_note": "built with go1.26.8 for testing/synctest; 'well-formed' is judged structurally (see assumptions in the evidence)",
+    "technique": "property-based testing (rapid) with an independent parser as oracle and a reference model for the expected recipient set",
+    "assumptions": ["toolchain go1.26.8 (newer than the repository's 1.23.5) is used to get testing/synctest"],
+}
+
+CHECKS["C10"] = {
+    "title": "spool preserves bytes and envelope, never stores credentials",
+    "go": GO126,
+    "units": [
+        {"name": "queue", "pkg": "internal/target/queue", "run": "^TestVerifC10",
+         "overlay": dict(QUEUE_COMMON, **{"verif_c01_test.go": "harness/C01/queue_test.go", "verif_c10_test.go": "harness/C10/spool_test.go"}), "overlay_abs": VERIFX},
+    ],
+    "quick": {"n": 2400, "shards": 16},
+    "thorough": {"n": 96000, "shards": 16},
+    "level_text": "randomised search (rapid) over header blocks, bodies (incl. file-backed ones larger than 1 MiB), envelopes and retry/restart histories, run through the real "
+                  "queue under synctest; round-trip oracle on every attempt plus a scan of every spool file for credential markers.",
+    "level_note": "built with go1.26.8 for testing/synctest; the header is compared in the serialised form go-message produces for the accepted header",
+    "technique": "property-based testing (rapid), round-trip oracle over retry x restart histories, marker scan",
+    "assumptions": ["toolchain go1.26.8 (newer than the repository's 1.23.5) is used to get testing/synctest"],
+}
+
 # properties deliberately not claimed: {"property_id":..., "reason":...}
 NOT_APPLICABLE = []
 
